@@ -4,6 +4,7 @@ import (
 	"bytes"
 	"encoding/json"
 	"fmt"
+	"time"
 
 	dbm "github.com/cometbft/cometbft-db"
 
@@ -46,7 +47,10 @@ func countTables(bz []byte) int {
 // which the basket invariant needs), validates the documents with the
 // modules' own ValidateGenesis, imports them into an empty chain, re-exports
 // and compares, and runs the registered invariants on the imported chain.
-func RoundTrip(c *chain.Chain) RoundTripResult {
+//
+// importAt is the genesis time of the importing chain: the export time, or later (a chain restarted from an
+// export starts later), or earlier; what is imported must not depend on it.
+func RoundTrip(c *chain.Chain, importAt time.Time) RoundTripResult {
 	ctx := c.ReadCtx()
 	eco, err := c.ExportEco(ctx)
 	if err != nil {
@@ -68,7 +72,7 @@ func RoundTrip(c *chain.Chain) RoundTripResult {
 	auth := c.Cdc.MustMarshalJSON(c.AK.ExportGenesis(ctx))
 	bank := c.Cdc.MustMarshalJSON(c.BK.ExportGenesis(ctx))
 	n := chain.New(dbm.NewMemDB(), c.Opts)
-	if err := n.InitGenesis(chain.Genesis{Time: c.Time, Eco: eco, Data: dat, Auth: auth, Bank: bank}); err != nil {
+	if err := n.InitGenesis(chain.Genesis{Time: importAt, Eco: eco, Data: dat, Auth: auth, Bank: bank}); err != nil {
 		res.Stage, res.Detail = "import", err.Error()
 		return res
 	}
